@@ -46,9 +46,14 @@ func NewHmmProbabilityVector(v Vector, isLog bool) (HmmProbabilityVector, error)
   if !isLog {
     pi.Map(func(x Scalar) { x.Log(x) })
   }
+  for i := 0; i < pi.Dim(); i++ {
+    if x := pi.At(i).GetFloat64(); math.IsNaN(x) || math.IsInf(x, 1) {
+      return HmmProbabilityVector{}, fmt.Errorf("invalid probability")
+    }
+  }
   r := HmmProbabilityVector{pi, t1, t2}
   if err := r.Normalize(); err != nil {
-    return HmmProbabilityVector{}, nil
+    return HmmProbabilityVector{}, err
   }
   return r, nil
 }
@@ -102,6 +107,15 @@ func NewHmmTransitionMatrix(tr_ Matrix, isLog bool) (HmmTransitionMatrix, error)
   // log-transform all probabilities
   if !isLog {
     tr.Map(func(x Scalar) { x.Log(x) })
+  }
+  { n, m := tr.Dims()
+    for i := 0; i < n; i++ {
+      for j := 0; j < m; j++ {
+        if x := tr.At(i, j).GetFloat64(); math.IsNaN(x) || math.IsInf(x, 1) {
+          return HmmTransitionMatrix{}, fmt.Errorf("invalid probability")
+        }
+      }
+    }
   }
   r := HmmTransitionMatrix{tr, t1, t2}
   if err := r.Normalize(); err != nil {
